@@ -86,6 +86,13 @@ func Main(prop string) {
 		var slow time.Duration
 		for i := 0; i < n; i++ {
 			c := Case{Kind: "session", Stream: strings.ToLower(prop) + "-" + batch, Idx: i, Pf: z.Pf, Hook: i%3 == 1}
+			// a fixed share of every run: scenario by case index, debug logging in every fourth case
+			scns := Scenarios[prop]
+			c.Scn = scns[i%len(scns)]
+			if prop == "C09" && i%16 == 15 {
+				c.Scn = "backlog" // > 1 MiB queued on one stream: the most expensive scenario, half the share
+			}
+			c.Debug = i%4 == 3
 			r.Case(c)
 			v0, t0 := r.Violations(), time.Now()
 			RunCase(r, c, i == 0 && batch == "s-0")
@@ -175,7 +182,7 @@ func (p *Plan) Describe(max int) map[string]interface{} {
 func RunCase(r *vh.Run, c Case, sample bool) {
 	var s *Session
 	for attempt := 0; attempt < 3; attempt++ {
-		plan := Gen(r.Rng(c.Stream, c.Idx), c.Pf)
+		plan := Gen(r.Rng(c.Stream, c.Idx), c.Pf, c.Scn)
 		if c.Probe != "" {
 			if plan = probePlan(c.Probe); plan == nil {
 				r.Inconclusive("unknown probe", c.Probe)
@@ -266,6 +273,12 @@ func RunCase(r *vh.Run, c Case, sample bool) {
 			seg += "+split-preface"
 		}
 		r.Class(fmt.Sprintf("frag=%s|pad=%s|prio=%v|streams=%s|win=%s|seg=%s", frag, pad, prio, ns, win, seg))
+		if c.Scn != "" {
+			r.Count("scenario_"+c.Scn, 1)
+		}
+		if c.Debug {
+			r.Count("sessions_with_debug_logs", 1)
+		}
 		if pl.NPush > 0 {
 			r.Count("sessions_with_push_promise", 1)
 		}
@@ -279,6 +292,9 @@ func RunCase(r *vh.Run, c Case, sample bool) {
 		}
 		if s.ConnBound {
 			r.Count("sessions_connection_window_bound", 1)
+		}
+		if c.Scn != "" {
+			r.Count("scenario_"+c.Scn, 1)
 		}
 	}
 	if s.Blocked {
